@@ -45,21 +45,32 @@ func TestVerifReplayC09(t *testing.T) {
 	}
 	if sc.Harness == "VerifC09Dir" {
 		hasStage, hasTask, hasCtx := mask&1 != 0, mask&2 != 0, mask&4 != 0
-		mkdir := func(n string) string { p := filepath.Join(dir, n); os.MkdirAll(p, 0o755); return p }
+		tmpl, _ := sc.Inputs["dirs-are-templates"].(bool)
+		// returns the directory as it is written in the definition; *real receives where it is
+		mkdir := func(n string, real *string) string {
+			p := filepath.Join(dir, n)
+			os.MkdirAll(p, 0o755)
+			*real = p
+			if tmpl {
+				return "{{.D}}/" + n
+			}
+			return p
+		}
 		cmd := fmt.Sprintf("pwd >> %s", trace)
 		def := &taskDefinition{Name: "tk", Command: []string{cmd}, Before: []string{cmd}, After: []string{cmd}}
+		if tmpl {
+			def.Variables = map[string]string{"D": dir}
+		}
 		start, _ := os.Getwd()
 		want := start
 		contexts := map[string]*runner.ExecutionContext{}
 		if hasCtx {
 			def.Context = "ctx"
-			c, _ := buildContext(&contextDefinition{Dir: mkdir("ctx-dir")})
+			c, _ := buildContext(&contextDefinition{Dir: mkdir("ctx-dir", &want)})
 			contexts["ctx"] = c
-			want = filepath.Join(dir, "ctx-dir")
 		}
 		if hasTask {
-			def.Dir = mkdir("task-dir")
-			want = def.Dir
+			def.Dir = mkdir("task-dir", &want)
 		}
 		tk, err := buildTask(def, &loaderContext{Dir: dir})
 		if err != nil {
@@ -72,8 +83,7 @@ func TestVerifReplayC09(t *testing.T) {
 			cfg.Tasks["tk"] = tk
 			sd := &stageDefinition{Name: "s", Task: "tk"}
 			if hasStage {
-				sd.Dir = mkdir("stage-dir")
-				want = sd.Dir
+				sd.Dir = mkdir("stage-dir", &want)
 			}
 			g, _ := scheduler.NewExecutionGraph()
 			g, err = buildPipeline(g, []*stageDefinition{sd}, cfg)
